@@ -44,6 +44,17 @@ TopoOK(g, t) ==
                    /\ \A j \in EIdx(g) : (Src(g, j) \in want /\ Tgt(g, j) \in want) => Pos(seq, Src(g, j)) < Pos(seq, Tgt(g, j))
     IN ok(t.seq) /\ t.none_again /\ ok(t.seq2)
 
+\* Topo::with_initials(init): starts from the listed nodes that have no incoming edge (duplicates and nodes with
+\* incoming edges are ignored); a further node is emitted exactly when all its predecessors have been emitted
+Preds(g, v) == {Src(g, j) : j \in {k \in EIdx(g) : Tgt(g, k) = v}}
+RECURSIVE TopoClosure(_, _)
+TopoClosure(g, S) == LET T == S \cup {v \in Nodes(g) : Preds(g, v) # {} /\ Preds(g, v) \subseteq S} IN
+                     IF T = S THEN S ELSE TopoClosure(g, T)
+TopoInitOK(g, t) ==
+    LET want == TopoClosure(g, {v \in SeqRange(t.init) : Preds(g, v) = {}}) IN
+    /\ NoDup(t.seq) /\ SeqRange(t.seq) = want /\ t.none_again
+    /\ \A j \in EIdx(g) : (Src(g, j) \in want /\ Tgt(g, j) \in want) => Pos(t.seq, Src(g, j)) < Pos(t.seq, Tgt(g, j))
+
 (* depth_first_search: replay the recorded event list against the search as a state machine.
    Event = <<kind, a, b, control>>: D(n, time), T(u, v), B(u, v), X(u, v), F(n, time);
    control = C (continue) / P (prune) / B (break).                                       *)
@@ -120,6 +131,8 @@ Bad(r) ==
     \cup chk("bfs_rev", h, LAMBDA x, v : \A j \in DOMAIN v : BfsOK(x, v[j]))
     \cup chk("topo", g, LAMBDA x, v : TopoOK(x, v))
     \cup chk("topo_rev", h, LAMBDA x, v : TopoOK(x, v))
+    \cup chk("topoi", g, LAMBDA x, v : \A j \in DOMAIN v : TopoInitOK(x, v[j]))
+    \cup chk("topoi_rev", h, LAMBDA x, v : \A j \in DOMAIN v : TopoInitOK(x, v[j]))
     \cup chk("dfsv", g, LAMBDA x, v : \A j \in DOMAIN v : DfsvOK(x, v[j]))
     \cup chk("dfsv_rev", h, LAMBDA x, v : \A j \in DOMAIN v : DfsvOK(x, v[j]))
 
